@@ -11,12 +11,17 @@ package main
 // evaluates the property predicate on the post-state.
 
 import (
+	"bytes"
 	"context"
+	"encoding/binary"
+	"io"
 	"sort"
+	"sync"
 
 	"github.com/restic/restic/internal/backend"
 	"github.com/restic/restic/internal/backend/mem"
 	"github.com/restic/restic/internal/repository"
+	"github.com/restic/restic/internal/repository/crypto"
 	"github.com/restic/restic/internal/repository/index"
 	"github.com/restic/restic/internal/restic"
 )
@@ -126,7 +131,11 @@ func c33Damage(h *H, repo *repository.Repository, be *mem.MemoryBackend) string 
 		}
 		return okIdx[h.Intn(len(okIdx))], true
 	}
-	switch h.Intn(17) {
+	switch h.Intn(20) {
+	case 17, 18, 19:
+		if l := c33TwinPack(h, repo, be, packs, okIdx); l != "" {
+			return l
+		}
 	case 0:
 		if len(idxs) > 0 {
 			a16Remove(be, backend.IndexFile, idxs[h.Intn(len(idxs))].ID.String())
@@ -287,6 +296,99 @@ func c33Damage(h *H, repo *repository.Repository, be *mem.MemoryBackend) string 
 	return "none"
 }
 
+// c33TwinPack stores a second, fully valid pack file with exactly the blob layout of an existing
+// one (same blobs, offsets, lengths — the blob ciphertexts are copied, the header is encrypted
+// again with a fresh nonce, so the pack ID differs) and lists it in a new index file. This is the
+// state two clients produce that back up the same small file concurrently. No damage at all.
+func c33TwinPack(h *H, repo *repository.Repository, be *mem.MemoryBackend, packs []a16PackInfo, okIdx []a16IdxInfo) string {
+	var cands []a16PackInfo
+	for _, p := range packs {
+		if p.HdrOK && len(p.Entries) > 0 {
+			cands = append(cands, p)
+		}
+	}
+	if len(cands) == 0 {
+		return ""
+	}
+	p := cands[h.Intn(len(cands))]
+	// the index entries of the original (only twin it when the index knows it: both packs must be
+	// described by old index files)
+	var ents []a16Entry
+	for _, ix := range okIdx {
+		for _, ip := range ix.Packs {
+			if ip.Pack == p.ID && len(ip.Entries) == len(p.Entries) {
+				ents = ip.Entries
+			}
+		}
+	}
+	if ents == nil {
+		return ""
+	}
+	raw := a16Raw(be, backend.PackFile, p.ID.String())
+	if len(raw) < 4 {
+		return ""
+	}
+	hl := int(binary.LittleEndian.Uint32(raw[len(raw)-4:]))
+	if hl+4 > len(raw) {
+		return ""
+	}
+	k := repo.Key()
+	enc := raw[len(raw)-4-hl : len(raw)-4]
+	if len(enc) < k.NonceSize() {
+		return ""
+	}
+	pt, err := k.Open(nil, enc[:k.NonceSize()], enc[k.NonceSize():], nil)
+	if err != nil {
+		return ""
+	}
+	nonce := crypto.NewRandomNonce()
+	twin := append([]byte(nil), raw[:len(raw)-4-hl]...)
+	twin = append(twin, nonce...)
+	twin = k.Seal(twin, nonce, pt, nil)
+	twin = binary.LittleEndian.AppendUint32(twin, uint32(hl))
+	id := restic.Hash(twin)
+	a16Replace(be, backend.PackFile, id.String(), twin)
+	a16SaveIndex(repo, []a16IdxPack{{Pack: id, Entries: ents}})
+	return "twin-pack"
+}
+
+// c33Glitch delivers damaged bytes on the FIRST load of every pack file (one bit of the header MAC
+// flipped in transit); the stored files are untouched and every later load is clean.
+type c33Glitch struct {
+	backend.Backend
+	mu   sync.Mutex
+	seen map[string]bool
+	Hits int
+}
+
+func (g *c33Glitch) Load(ctx context.Context, hd backend.Handle, length int, offset int64, fn func(rd io.Reader) error) error {
+	if hd.Type != backend.PackFile {
+		return g.Backend.Load(ctx, hd, length, offset, fn)
+	}
+	g.mu.Lock()
+	first := !g.seen[hd.Name]
+	g.seen[hd.Name] = true
+	g.mu.Unlock()
+	if !first {
+		return g.Backend.Load(ctx, hd, length, offset, fn)
+	}
+	return g.Backend.Load(ctx, hd, length, offset, func(rd io.Reader) error {
+		buf, err := io.ReadAll(rd)
+		if err != nil {
+			return err
+		}
+		if len(buf) >= 5 {
+			buf[len(buf)-5] ^= 0x04
+			g.mu.Lock()
+			g.Hits++
+			g.mu.Unlock()
+		}
+		return fn(bytes.NewReader(buf))
+	})
+}
+
+func (g *c33Glitch) Unwrap() backend.Backend { return g.Backend }
+
 func c33MinInt(a, b int) int {
 	if a < b {
 		return a
@@ -329,7 +431,13 @@ func streamC33(h *H) {
 		h.Rec("thr", Itoa(thr))
 		c33RecordPre(h, repo, be, thr)
 
-		rec := NewRecBackend(be)
+		var inner backend.Backend = be
+		var glitch *c33Glitch
+		if h.Intn(3) == 0 {
+			glitch = &c33Glitch{Backend: be, seen: map[string]bool{}}
+			inner = glitch
+		}
+		rec := NewRecBackend(inner)
 		cli := NewCLI(rec)
 		restore := c33SetFull(thr)
 		args := []string{"repair", "index"}
@@ -339,6 +447,9 @@ func streamC33(h *H) {
 		r := cli.Run(args...)
 		restore()
 		h.Rec("res", a16ErrKind(r), HexS(a16OneLine(r.Stderr)))
+		if glitch != nil {
+			h.Rec("glitch", Itoa(glitch.Hits))
+		}
 		c33RecordTrace(h, rec)
 		a16RemoveLocks(be)
 		c33RecordPost(h, OpenRepoOn(be, "geheim"), be)
